@@ -24,6 +24,7 @@ type CallFact struct {
 	Chain  []string
 	InLoop string // atom of the innermost ranged collection, "" when not in a loop
 	Alts   map[int][]Alt // for arguments that are branch-dependent (phi): each alternative with its branch context
+	Root   string        // effect mode: the memory object a store/write targets ("local…" or the provenance of the reference it goes through)
 }
 
 // Alt is one alternative of a branch-dependent value together with the conditions of the branch.
@@ -87,11 +88,30 @@ func (ge *GuardEngine) Calls(fn *ssa.Function, env *Env, chain, ctx []string, de
 			case *ssa.Defer:
 				cc = &x.Call
 			case *ssa.MapUpdate:
-				out = append(out, CallFact{Caller: fn, Name: "mapupdate", Pos: x.Pos(), Chain: chain,
+				out = append(out, CallFact{Caller: fn, Name: "mapupdate", Pos: x.Pos(), Chain: chain, Root: ge.refRoot(x.Map, env),
 					Args: []string{ge.pv.Atom(x.Map, env), ge.pv.Atom(x.Key, env), ge.pv.Atom(x.Value, env)},
 					Ctx:  append(append([]string{}, ctx...), ge.condCtx(fi, b, env)...)})
 				continue
 			case *ssa.Store:
+				if ia, ok := x.Addr.(*ssa.IndexAddr); ok {
+					out = append(out, CallFact{Caller: fn, Name: "write", Pos: x.Pos(), Chain: chain, Root: ge.writeRoot(ia, env),
+						Args: []string{ge.pv.Atom(ia.X, env) + "[" + ge.pv.indexAtom(ia.Index, env) + "]", ge.pv.Atom(x.Val, env), "index-store"},
+						Ctx:  append(append([]string{}, ctx...), ge.condCtx(fi, b, env)...)})
+					continue
+				}
+				if u, ok := x.Addr.(*ssa.UnOp); ok && u.Op == token.MUL {
+					// store through a loaded pointer: *p = v
+					out = append(out, CallFact{Caller: fn, Name: "write", Pos: x.Pos(), Chain: chain, Root: ge.refRoot(u, env),
+						Args: []string{"*" + ge.pv.Atom(u, env), ge.pv.Atom(x.Val, env), "deref-store"},
+						Ctx:  append(append([]string{}, ctx...), ge.condCtx(fi, b, env)...)})
+					continue
+				}
+				if prm, ok := x.Addr.(*ssa.Parameter); ok {
+					out = append(out, CallFact{Caller: fn, Name: "write", Pos: x.Pos(), Chain: chain, Root: ge.refRoot(prm, env),
+						Args: []string{"*" + ge.pv.Atom(prm, env), ge.pv.Atom(x.Val, env), "deref-store"},
+						Ctx:  append(append([]string{}, ctx...), ge.condCtx(fi, b, env)...)})
+					continue
+				}
 				if al, ok := x.Addr.(*ssa.Alloc); ok && al.Comment != "" {
 					// assignment to a local variable that is assigned in several places (branch-dependent value)
 					if whole, _ := ge.pv.storesTo(al, -1); len(whole) > 1 {
@@ -103,7 +123,7 @@ func (ge *GuardEngine) Calls(fn *ssa.Function, env *Env, chain, ctx []string, de
 				}
 				if fa, ok := x.Addr.(*ssa.FieldAddr); ok {
 					if _, isAlloc := ge.pv.resolve(fa.X).(*ssa.Alloc); !isAlloc {
-						out = append(out, CallFact{Caller: fn, Name: "store", Pos: x.Pos(), Chain: chain,
+						out = append(out, CallFact{Caller: fn, Name: "store", Pos: x.Pos(), Chain: chain, Root: ge.writeRoot(fa, env),
 							Args: []string{ge.pv.addrAtom(fa, env), ge.pv.Atom(x.Val, env)},
 							Ctx:  append(append([]string{}, ctx...), ge.condCtx(fi, b, env)...)})
 					}
@@ -114,6 +134,12 @@ func (ge *GuardEngine) Calls(fn *ssa.Function, env *Env, chain, ctx []string, de
 			}
 			callee := ge.calleeOf(cc)
 			if callee == nil || !ge.p.InModule(callee) {
+				// builtins and external functions that write through an argument
+				if dst := externalWriteArg(cc); dst >= 0 && dst < len(cc.Args) {
+					out = append(out, CallFact{Caller: fn, Name: "write", Pos: in.Pos(), Chain: chain, Root: ge.sliceRoot(cc.Args[dst], env),
+						Args: []string{ge.pv.Atom(cc.Args[dst], env) + "[*]", "", "via " + calleeName(cc)},
+						Ctx:  append(append([]string{}, ctx...), ge.condCtx(fi, b, env)...)})
+				}
 				continue
 			}
 			cf := CallFact{Caller: fn, Callee: callee, Name: FuncName(callee), Pos: in.Pos(), Chain: chain}
@@ -253,4 +279,34 @@ func onEveryNormalPath(fn *ssa.Function, b *ssa.BasicBlock) bool {
 		st = append(st, x.Succs...)
 	}
 	return true
+}
+
+// externalWriteArg: index of the argument an external callee (or builtin) writes through, -1 if none.
+// Everything external not listed here is assumed read-only for its arguments (stated in the evidence).
+func externalWriteArg(cc *ssa.CallCommon) int {
+	if b, ok := cc.Value.(*ssa.Builtin); ok {
+		switch b.Name() {
+		case "copy", "clear":
+			return 0
+		}
+		return -1
+	}
+	f := cc.StaticCallee()
+	if f == nil {
+		return -1
+	}
+	n := f.String()
+	switch {
+	case strings.HasPrefix(n, "sort.Slice"), strings.HasPrefix(n, "sort.SliceStable"), strings.HasPrefix(n, "sort.Sort"), strings.HasPrefix(n, "slices.Reverse"), strings.HasPrefix(n, "slices.Sort"), strings.HasPrefix(n, "slices.SortFunc"):
+		return 0
+	case strings.Contains(n, "binary.littleEndian).PutUint"), strings.Contains(n, "binary.bigEndian).PutUint"):
+		return 1
+	case n == "encoding/hex.Decode", n == "encoding/hex.Encode":
+		return 0
+	case n == "io.ReadFull":
+		return 1
+	case n == "crypto/rand.Read", strings.HasSuffix(n, "frand.Read"):
+		return 0
+	}
+	return -1
 }
